@@ -132,6 +132,9 @@ class AsynConn:
                     raise TimeoutError(f'timeout in readline ({timeout:g} sec)')
                 return None
             self._rxbuffer += data
+            if timeout and time.time() >= end and self.end_of_line not in self._rxbuffer:
+                # a device sending continuously without end_of_line must not block forever
+                raise TimeoutError(f'timeout in readline ({timeout:g} sec)')
 
     def readbytes(self, nbytes, timeout=None):
         """read a fixed number of bytes
